@@ -88,7 +88,14 @@ class GridDistortion:
         extent = np.linspace(-max_field, max_field, self.num_points)
         Hx, Hy = np.meshgrid(extent, extent)
 
-        if self.distortion_type == 'f-tan':
+        if (self.optic.field_type == 'object_height' and
+                self.distortion_type in ('f-tan', 'f-theta')):
+            # fields are object heights, not angles: the paraxial image
+            # height is proportional to the object height
+            const = self.optic.surface_group.y[-1, 0] / 1e-10
+            xp = const * Hx
+            yp = const * Hy
+        elif self.distortion_type == 'f-tan':
             const = (self.optic.surface_group.y[-1, 0] /
                      (np.tan(1e-10 * np.radians(self.optic.fields.max_field))))
             xp = const * np.tan(Hx * np.radians(self.optic.fields.max_field))
